@@ -82,11 +82,13 @@ Print Assumptions C19_disable_all.
    of performSwitchover is a complete DisableAll over the candidates, without error, followed by
    the rest - or stops there *)
 Theorem C19_switchover_disables_first : forall cfg env sw mem tr o, runs (perform_switchover cfg env sw mem) tr o ->
+  (* the candidates of the request that are registered hosts *)
+  let active := registered_only (map fst (se_all_hosts env)) (switch_candidates env sw) in
   tr = [] \/
-  exists active tr1 tr2, tr = tr1 ++ tr2 /\ incl active (se_active env) /\
+  exists tr1 tr2, tr = tr1 ++ tr2 /\
     Forall (fun e => disable_call (ev_call e)) tr1 /\
     (runs (opt_disable_all (se_old_master env) active) tr1 (Done None) \/
-     (tr2 = [] /\ exists o1, runs (opt_disable_all_k (mem_host (se_old_master env) (map fst (se_all_hosts env)) && forallb (fun h => mem_host h (map fst (se_all_hosts env))) active) (se_old_master env) active) tr1 o1 /\ o1 <> Done None)).
+     (tr2 = [] /\ exists o1, runs (opt_disable_all_k (mem_host (se_old_master env) (map fst (se_all_hosts env))) (se_old_master env) active) tr1 o1 /\ o1 <> Done None)).
 Proof. exact switchover_disables_first. Qed.
 Print Assumptions C19_switchover_disables_first.
 
